@@ -146,6 +146,18 @@ pub fn json_mutations(doc: &str) -> Vec<(String, String)> {
                     set("string-non-ascii", Value::String(format!("\u{e9}{}", &s[2..])));
                     set("string-upper", Value::String(s.to_uppercase()));
                 }
+                // same byte length, a multi byte character at every offset (short strings) or at both ends and the middle:
+                // code that indexes or splits the string by byte offsets meets a character boundary problem
+                if s.is_ascii() {
+                    let offs: Vec<usize> = if n <= 24 { (0..n).collect() } else { vec![0, 1, 2, 3, n / 2, n / 2 + 1, n - 5, n - 4, n - 3, n - 2] };
+                    for i in offs {
+                        for (w, ch) in [(2usize, "\u{e9}"), (3, "\u{20ac}"), (4, "\u{1f511}")] {
+                            if i + w <= n {
+                                set(&format!("string-multibyte{}-at-{}", w, if n <= 24 { i.to_string() } else { format!("{}of{}", i, n) }), Value::String(format!("{}{}{}", &s[..i], ch, &s[i + w..])));
+                            }
+                        }
+                    }
+                }
                 set("string-long", Value::String(format!("{}00", s)));
                 set("string-very-long", Value::String(s.repeat(50)));
                 set("string-0x", Value::String(format!("0x{}", s)));
